@@ -238,7 +238,7 @@ def ref_apply(pool, env, op):
             if any(EACH in l for l in labels):
                 return NA  # a single value must not be labelled "each month": garbage in
             return ("res", RObj("s", list(vals), labels))
-        if var in ("monthly_list", "monthly_ndarray"):
+        if var in ("monthly_list", "monthly_ndarray", "monthly_shared_ndarray"):
             if not (isinstance(vals, list) and len(vals) == 3 and all(isinstance(v, list) and v for v in vals)):
                 return NA
             if len({len(v) for v in vals}) != 1 or not all(_finite(v) for v in vals):
@@ -258,6 +258,27 @@ def ref_apply(pool, env, op):
             case = "labels_given_with_each_month" if labels[1].endswith(EACH) else "labels_given_without_suffix"
             return ("res", RObj("m", [list(vals), list(z), list(z)], lab), case)
         return NA
+
+    if name in ("setitem", "zero_after"):
+        # in-place operations: ("inplace", new [k, f, p] lists of the target) - labels stay, nothing else changes
+        a = _get(pool, op, "a")
+        if a is None or a.shape != "m" or not _ok(a):
+            return NA
+        if name == "zero_after":
+            m = op.get("month")
+            if not isinstance(m, int) or m < 0 or m > a.n:
+                return NA
+            return ("inplace", [list(v[:m]) + [0] * (a.n - m) for v in a.vals])
+        b = _get(pool, op, "b")
+        k = op.get("key")
+        if b is None or b.shape != "s" or not _ok(b) or not isinstance(k, int) or not (0 <= k < a.n):
+            return NA
+        if [l + EACH for l in b.labels] != list(a.labels):
+            return NA  # index assignment of a value with other units: the statement says nothing, not generated
+        new = [list(v) for v in a.vals]
+        for q in range(3):
+            new[q][k] = b.vals[q]
+        return ("inplace", new)
 
     a = _get(pool, op, "a")
     if a is None:
@@ -581,14 +602,17 @@ def _gen_construct(rng, pool, n, palette, want=None):
     if rng.chance(0.08):
         return {"op": "construct", "variant": "monthly_kcals_only", "vals": gen_vals(rng, "m", nn, ratio)[0],
                 "labels": [b + suf for b in base]}
-    return {"op": "construct", "variant": rng.pick(["monthly_list", "monthly_ndarray"]),
-            "vals": gen_vals(rng, "m", nn, ratio), "labels": [b + suf for b in base]}
+    var = rng.pick(["monthly_list", "monthly_ndarray", "monthly_ndarray", "monthly_shared_ndarray"])
+    vals = gen_vals(rng, "m", nn, ratio)
+    if var == "monthly_shared_ndarray":
+        vals[2] = list(vals[1])  # fat and protein are handed over as ONE array object
+    return {"op": "construct", "variant": var, "vals": vals, "labels": [b + suf for b in base]}
 
 
 _OP_WEIGHTS = [
     ("construct", 9), ("binary", 27), ("num", 8), ("arr", 4), ("neg", 3), ("getitem", 5), ("month", 7),
     ("sum", 4), ("running_sum", 3), ("minmax", 4), ("round", 3), ("clip", 3), ("shift", 3),
-    ("in_units", 10), ("from_ratio", 2), ("pred", 13), ("env", 8),
+    ("in_units", 10), ("from_ratio", 2), ("pred", 13), ("env", 8), ("inplace", 5),
 ]
 _OP_TOTAL = sum(w for _, w in _OP_WEIGHTS)
 
@@ -711,6 +735,16 @@ def _propose(rng, pool, n, palette):
         return {"op": "round", "a": i, "decimals": rng.pick([0, 1, 2, 3, 5]), "out": out}
     if kind == "shift":
         return {"op": "shift", "a": i, "months": rng.pick([0, 1, 1, 2, nn - 1, nn, nn + 2]), "out": out}
+    if kind == "inplace":
+        # index assignment and set_to_zero_after_month change their target in place - and nothing else
+        if rng.chance(0.5):
+            return {"op": "zero_after", "a": i, "month": rng.randrange(nn + 1)}
+        base = [l[:-len(EACH)] if l.endswith(EACH) else l for l in pool[i].labels]
+        js = [j for j in range(len(pool)) if pool[j].shape == "s" and list(pool[j].labels) == base]
+        if not js:
+            return {"op": "construct", "variant": "scalar", "vals": gen_vals(rng, "s", n, is_ratio_labels(base)),
+                    "labels": base, "out": _out_slot(rng, pool)}
+        return {"op": "setitem", "a": i, "key": rng.randrange(nn), "b": rng.pick(js)}
     return None
 
 
@@ -744,6 +778,8 @@ def gen_sequence(rng, lo, hi):
         ops.append(op)
         if out[0] == "res":
             ref_store(pool, op, out[1])
+        elif out[0] == "inplace":
+            pool[op["a"]].vals = out[1]
     return {"env": env, "ops": ops}
 
 
@@ -871,6 +907,7 @@ class SeqRunner:
         self.ref = []  # [RObj]
         self.real = []  # [Food]
         self.stale = []  # [bool] units list of the real object disagrees with its labels
+        self.given = []  # [(arrays handed to a constructor, copies taken at that moment)]
         self.executed = 0
         self.has_binary_or_conversion = False
 
@@ -916,7 +953,13 @@ class SeqRunner:
             if var == "monthly_list":
                 return F(list(v[0]), list(v[1]), list(v[2]), L[0], L[1], L[2])
             if var == "monthly_ndarray":
-                return F(np.array(v[0]), np.array(v[1]), np.array(v[2]), L[0], L[1], L[2])
+                arrs = [np.array(v[0]), np.array(v[1]), np.array(v[2])]
+                self.given.append((arrs, [x.copy() for x in arrs]))
+                return F(arrs[0], arrs[1], arrs[2], L[0], L[1], L[2])
+            if var == "monthly_shared_ndarray":
+                k, x = np.array(v[0]), np.array(v[1])
+                self.given.append(([k, x], [k.copy(), x.copy()]))
+                return F(k, x, x, L[0], L[1], L[2])
             if var == "monthly_kcals_only":
                 return F(kcals=np.array(v), kcals_units=L[0], fat_units=L[1], protein_units=L[2])
         a = self.real[op["a"]]
@@ -972,6 +1015,11 @@ class SeqRunner:
             return a.in_units_kcals_grams_grams_per_person_from_ratio(*op["ratios"])
         if name == "pred":
             return self.call_pred(op["name"], a, b)
+        if name == "zero_after":
+            return a.set_to_zero_after_month(op["month"])
+        if name == "setitem":
+            a[op["key"]] = b
+            return None
         raise core.HarnessError("unknown op %r" % name)
 
     @staticmethod
@@ -1019,10 +1067,19 @@ class SeqRunner:
         nontrivial = self.executed >= 2 and self.has_binary_or_conversion
         return nontrivial
 
-    def check_pool_unchanged(self, oi, op, snaps, operand_idx):
+    def check_pool_unchanged(self, oi, op, snaps, operand_idx, skip=()):
         V = self.V
         V.ev("operands_unchanged")
+        for gi, (arrs, copies) in enumerate(self.given):
+            # arrays the harness handed to the constructor are its own: no operation may ever change them
+            if any(x.shape != c.shape or not bool((x == c).all()) for x, c in zip(arrs, copies)):
+                V.fail("operands_unchanged", self.ident(op, what="numbers", role="constructor_argument"),
+                       self.witness(oi, op, given_index=gi, before=[c.tolist() for c in copies], after=[x.tolist() for x in arrs]),
+                       "an operation changed an array that had been handed to the constructor of a quantity")
+                self.given[gi] = (arrs, [x.copy() for x in arrs])
         for i, (o, s) in enumerate(zip(self.real, snaps)):
+            if i in skip:
+                continue
             now = snapshot(o)
             role = "operand" if i in operand_idx else "bystander"
             if now[0] != s[0] or now[1] != s[1]:
@@ -1141,6 +1198,9 @@ class SeqRunner:
             self.probe("skipped_inapplicable")
             log.add("OP", s=self.si, i=oi, op=name, out="na")
             return
+        if out[0] == "inplace":
+            self.step_inplace(oi, op, out[1])
+            return
         operand_idx = [op[k] for k in ("a", "b") if isinstance(op.get(k), int)]
         snaps = [snapshot(o) for o in self.real]
         got, exc = self.try_real(op)
@@ -1216,6 +1276,62 @@ class SeqRunner:
             else:
                 self.real[slot] = new[1]
                 self.stale[slot] = new[2]
+
+    def step_inplace(self, oi, op, want):
+        """Index assignment / set_to_zero_after_month: the target takes the documented numbers, keeps its labels,
+        and no other existing quantity (nor the assigned value) changes."""
+        V, log, name = self.V, self.log, op["op"]
+        t = op["a"]
+        snaps = [snapshot(o) for o in self.real]
+        tgt = self.real[t]
+        int_dtype = [getattr(getattr(tgt, q, None), "dtype", None) is not None and getattr(tgt, q).dtype.kind in "iub"
+                     for q in ("kcals", "fat", "protein")]
+        if any(int_dtype):
+            # a series built from integers is an integer array; numpy casts what is assigned into it. The statement is
+            # about labels, not about this: the reference follows numpy's cast (counted in a probe)
+            want = [[(int(x) if (int_dtype[q] and _isnum(x) and x == x and abs(x) < 2 ** 62) else x) for x in v]
+                    for q, v in enumerate(want)]
+            self.probe("inplace_on_integer_series")
+        _got, exc = self.try_real(op)
+        self.executed += 1
+        self.c["ops"][name] = self.c["ops"].get(name, 0) + 1
+        if exc is not None:
+            self.probe("refused:" + name)
+            log.add("OP", s=self.si, i=oi, op=name, out="refused", exc=exc)
+            self.check_pool_unchanged(oi, op, snaps, [op[k] for k in ("a", "b") if isinstance(op.get(k), int)])
+            return
+        V.ev("numbers_correct")
+        V.ev("labels_correct")
+        V.ev("units_list_consistent")
+        same_obj = [k for k, o in enumerate(self.real) if o is self.real[t]]
+        shape, vals, labels, ulist = real_view(self.real[t])
+        ref = self.ref[t]
+        ok_shape = shape == "m" and len(vals[0]) == ref.n
+        bad = None
+        if ok_shape:
+            gf, wf = _flat(vals, "m"), [x for v in want for x in v]
+            bad = [i for i, (x, r) in enumerate(zip(wf, gf)) if not close(x, r)]
+        if not ok_shape or bad:
+            V.fail("numbers_correct", self.ident(op, case="inplace", kind="value" if ok_shape else "shape"),
+                   self.witness(oi, op, expected=want, got=vals, first_bad=bad[0] if bad else None),
+                   "an in-place operation left its target with other numbers than documented")
+        if labels != list(ref.labels):
+            V.fail("labels_correct", self.ident(op, case="inplace"),
+                   self.witness(oi, op, expected_labels=list(ref.labels), got_labels=labels),
+                   "an in-place operation changed the labels of its target")
+        log.add("OP", s=self.si, i=oi, op=name, out="inplace", vals=vals, labels=labels)
+        if not ok_shape or bad or labels != list(ref.labels):
+            self.probe("rebuilt_after_failure")
+            ref.vals = [list(v) for v in want]
+            fresh = self.build(ref)
+            for k in same_obj:
+                self.real[k] = fresh
+                self.ref[k].vals = [list(v) for v in want]
+        else:
+            for k in same_obj:
+                self.ref[k].vals = [list(v) for v in vals]
+        operands = [op[k] for k in ("b",) if isinstance(op.get(k), int)]
+        self.check_pool_unchanged(oi, op, snaps, operands, skip=same_obj)
 
     def predicate_equivalence(self, oi, op):
         """Clause (f): the predicate on single values vs. on the equivalent one-month series,
